@@ -91,9 +91,7 @@ def import_by_contract(e, adf):
             elif name == 'rng': sf.append(new_rng_cell())
             elif rule[0] == 'default': sf.append(e.default_field('lib/src/adf.rs', sh, name))
             else: raise Unsupported('field rule %s for %s::%s' % (rule, sh, name))
-        conv = [nm for nm in e.fns if re.search(r'as (Try)?From<(\w+::)*%s>>::(try_)?from$' % re.escape(sh), nm) and 'Adf' in nm.split(' as ')[0]]
-        if not conv: raise Unsupported('conversion %s -> Adf not found in the MIR' % sh)
-        r = e.call(conv[0], [Struct(sf)])
+        r = e.call('<adf::Adf as %s<adf::%s>>::%s' % ('TryFrom' if kind == 'try_from' else 'From', sh, kind), [Struct(sf)])
         if kind == 'try_from':
             if r.v != 'Ok': raise RustPanic('import rejected by TryFrom<%s>' % sh)
             r = r.f[0]
@@ -307,6 +305,8 @@ def spec(ctx, tier, seed):
     ek = c15.engine(ctx)
     for mode in ('naive', 'hybrid', 'biodivine'):
         jobs.append(Job('cli-export-%s' % mode, 'harness.c15', 'export_job', {'text': c15.TEXTS[0], 'mode': mode, 'export': 'out.json', 'free': ['grounded', 'stable']}, engine_key=ek, stop_after_violations=5))
+        # a name without extension / in a directory: whatever path the front end finally creates must have been tested (and found absent)
+        jobs.append(Job('cli-export-%s-noext' % mode, 'harness.c15', 'export_job', {'text': c15.TEXTS[0], 'mode': mode, 'export': 'out' if mode != 'biodivine' else 'd/state', 'free': ['grounded']}, engine_key=ek, stop_after_violations=5))
     jobs.append(Job('canary', mod, 'persist_job', {'n': 2, 'fam': ['sym', 'sym'], 'history': [], 'final': 'grounded', 'mode': 'nodelist', 'canary': True}, stop_after_violations=1, canary=True))
     return {'jobs': jobs, 'level': 'model_checking', 'allowed_status': ('ok', 'panic', 'bound'),
             'assumptions': ASSUMPTIONS + ['serde_json encodes/decodes according to the derive attributes of Bdd and Adf (read from the source each run; validated natively against real serde_json on %d cases per run)' % (12 if tier == 'quick' else 40)],
